@@ -283,8 +283,9 @@ func (r *remoteReplicator) Replica(idx int64, msg []byte) {
 		logger.String("replicator", r.String()),
 		logger.Int64("replicaIdx", resp.ReplicaIndex),
 		logger.Int64("ackIdx", resp.AckIndex))
-	// FIXME: need check resp err
-	if resp.AckIndex == resp.ReplicaIndex {
+	// NOTE: a failed append(e.g. follower's partition is closed) answers an index too, which can be the
+	// same as replica index, never ack the message if follower returns the error.
+	if resp.Err == "" && resp.AckIndex == resp.ReplicaIndex {
 		// if ack index = replica, need ack wal
 		r.SetAckIndex(resp.AckIndex)
 		r.statistics.AckSequence.Incr()
